@@ -240,11 +240,15 @@ def fault_plan(seed, tier):
                 for victim in range(k):
                     points = [1, 2, 99] if tier == "quick" else [1, 2, 3, 99]
                     for kb in points:
-                        faults.append({"sc": sc, "victim": victim, "kill_before": kb, "deadline": 25.0})
+                        faults.append({"sc": sc, "victim": victim, "kill_before": kb, "deadline": 25.0, "prior": 0})
+                    if k >= 2:   # the same solver object used before, undisturbed (1 or 2 earlier calls), then a crash
+                        faults.append({"sc": sc, "victim": victim, "kill_before": 1 + victim % 2, "deadline": 40.0,
+                                       "prior": 1 + victim % 2})
     if tier == "quick":
         r.shuffle(faults)
         ctrl = [f for f in faults if f["kill_before"] == 99][:4]
-        faults = [f for f in faults if f["kill_before"] != 99][:28] + ctrl
+        reuse = [f for f in faults if f["prior"] > 0][:8]
+        faults = [f for f in faults if f["kill_before"] != 99 and f["prior"] == 0][:24] + reuse + ctrl
     for i, f in enumerate(faults):
         f["id"] = i
     return faults
